@@ -498,12 +498,21 @@ func (ca *clusterAdmin) AlterPartitionReassignments(topic string, assignment [][
 		if err != nil {
 			errs = append(errs, err)
 		} else {
-			if rsp.ErrorCode > 0 {
+			if rsp.ErrorCode == ErrNotController {
+				// the controller moved: refresh it and let retryOnError try again there
+				_, _ = ca.refreshController()
+				return rsp.ErrorCode
+			}
+			if rsp.ErrorCode != ErrNoError {
 				errs = append(errs, errors.New(rsp.ErrorCode.Error()))
 			}
 
 			for topic, topicErrors := range rsp.Errors {
 				for partition, partitionError := range topicErrors {
+					if partitionError.errorCode == ErrNotController {
+						_, _ = ca.refreshController()
+						return partitionError.errorCode
+					}
 					if partitionError.errorCode != ErrNoError {
 						errStr := fmt.Sprintf("[%s-%d]: %s", topic, partition, partitionError.errorCode.Error())
 						errs = append(errs, errors.New(errStr))
